@@ -32,12 +32,14 @@ type pipeCase struct {
 	fault  int    // sink call that fails (0: none)
 	reuse  bool   // Close; Reset; second frame
 	rdconc int
-	flush  int // call Flush after every flush-th Write (0: never)
+	flush  int  // call Flush after every flush-th Write (0: never)
+	once   bool // the sink fails at that call only
+	legacy bool
 }
 
 func (c *pipeCase) fields() string {
-	return fmt.Sprintf("conc=%d nblk=%d tail=%d kind=%d seed=%d pseed=%d chunk=%d fault=%d reuse=%d rdconc=%d flush=%d",
-		c.conc, c.nblk, c.tail, c.kind, c.seed, c.pseed, c.chunk, c.fault, b2i(c.reuse), c.rdconc, c.flush)
+	return fmt.Sprintf("conc=%d nblk=%d tail=%d kind=%d seed=%d pseed=%d chunk=%d fault=%d reuse=%d rdconc=%d flush=%d once=%d legacy=%d",
+		c.conc, c.nblk, c.tail, c.kind, c.seed, c.pseed, c.chunk, c.fault, b2i(c.reuse), c.rdconc, c.flush, b2i(c.once), b2i(c.legacy))
 }
 
 func replayPipe(kind string, f map[string]string) (string, bool) {
@@ -46,7 +48,7 @@ func replayPipe(kind string, f map[string]string) (string, bool) {
 	}
 	ps, _ := strconv.ParseUint(f["pseed"], 10, 64)
 	c := &pipeCase{conc: atoi(f["conc"]), nblk: atoi(f["nblk"]), tail: atoi(f["tail"]), kind: atoi(f["kind"]), seed: atoi(f["seed"]),
-		pseed: ps, chunk: atoi(f["chunk"]), fault: atoi(f["fault"]), reuse: f["reuse"] == "1", rdconc: atoi(f["rdconc"]), flush: atoi(f["flush"])}
+		pseed: ps, chunk: atoi(f["chunk"]), fault: atoi(f["fault"]), reuse: f["reuse"] == "1", rdconc: atoi(f["rdconc"]), flush: atoi(f["flush"]), once: f["once"] == "1", legacy: f["legacy"] == "1"}
 	return runPipe(c), true
 }
 
@@ -95,12 +97,12 @@ func runPipe(c *pipeCase) string {
 		// sequential reference output (determinism across concurrency levels and schedules, C14)
 		var ref bytes.Buffer
 		zr0 := lz4.NewWriter(&ref)
-		zr0.Apply(lz4.BlockSizeOption(lz4.Block64Kb), lz4.BlockChecksumOption(true))
+		zr0.Apply(lz4.BlockSizeOption(lz4.Block64Kb), lz4.BlockChecksumOption(!c.legacy), lz4.LegacyOption(c.legacy))
 		writeSession(zr0, data, c.chunk, c.flush)
 		// concurrent run under perturbation
-		sk := &sink{failAt: c.fault}
+		sk := &sink{failAt: c.fault, once: c.once}
 		zw := lz4.NewWriter(sk)
-		zw.Apply(lz4.BlockSizeOption(lz4.Block64Kb), lz4.BlockChecksumOption(true), lz4.ConcurrencyOption(c.conc))
+		zw.Apply(lz4.BlockSizeOption(lz4.Block64Kb), lz4.BlockChecksumOption(!c.legacy), lz4.LegacyOption(c.legacy), lz4.ConcurrencyOption(c.conc))
 		verifhook.Start(c.pseed, true)
 		werr := writeSession(zw, data, c.chunk, c.flush)
 		tr := verifhook.Stop()
@@ -139,7 +141,7 @@ func runPipe(c *pipeCase) string {
 			if sk.failed && werr == nil {
 				det = "fail:sink-failure-not-reported"
 			}
-			if !bytes.HasPrefix(ref.Bytes(), sk.buf.Bytes()) {
+			if !c.once && !bytes.HasPrefix(ref.Bytes(), sk.buf.Bytes()) {
 				det = "fail:sink-not-a-prefix-of-fault-free-output"
 			}
 		}
@@ -184,8 +186,10 @@ func runPipe(c *pipeCase) string {
 				var o2 bytes.Buffer
 				_, e2 := zr2.WriteTo(&o2)
 				verifhook.Stop()
-				if e2 == nil {
-					rd = "fail:corrupted-frame-read-without-error"
+				if e2 == nil && !bytes.Equal(o2.Bytes(), data) {
+					// (a flipped byte of a compressed block can leave its decoded bytes unchanged,
+					// e.g. another offset into a run: then there is nothing to report)
+					rd = "fail:corrupted-frame-read-without-error-and-other-content"
 				} else if !bytes.HasPrefix(data, o2.Bytes()) {
 					rd = "fail:corrupted-frame-delivered-non-prefix"
 				}
@@ -217,8 +221,11 @@ func compPipe(o *out, seed uint64, tier string) {
 			c.flush = 1 + r.intn(3)
 			c.chunk = []int{1000, 30000, 65537, 100000}[r.intn(4)]
 		}
-		if r.intn(6) == 0 {
+		if r.intn(5) == 0 {
 			c.fault = 1 + r.intn(3*(c.nblk+1)+2)
+			c.once = r.intn(2) == 0
+			c.legacy = r.intn(3) == 0
+			c.reuse = false
 		}
 		obs := iso("pipe", c.fields(), 30*time.Second)
 		tr, nj := "", "0"
